@@ -1,4 +1,5 @@
 import FxVerif.Model.C20
+import FxVerif.Model.C20Run
 import FxVerif.Model.Util
 /-! line-protocol driver for the C20 model: `lake env lean --run Driver/C20.lean < ops.txt`
 
@@ -8,6 +9,11 @@ import FxVerif.Model.Util
 * `target <hex>` → `ibc <prefix> <port> <channel>` / `plain <target>` (hex fields)
 * `b32 <hex>` → `ok <hex>` / `err`
 * `hexstr <hex>` → `ok` / `err` (does `hex.DecodeString` accept the text)
+* `pcv <precompile>.<abi method> <ArgsType> <feature>=<value> …` → `ok | err | panic`: verdict of the `Validate` program
+  REGENERATED from the Go AST (`Gen/C20Run.lean`) on the decoded argument struct described by the features (keyed by Go
+  field name: `len:Tokens=2`, `big:Amount=12` (`big:X=nil` for a nil pointer), `zaddr:Refund=0`, `empty:Receipt=1`,
+  `zarr:Target=0`, `num:SortBy=1`, `ext:ValidateModuleName:Chain=1`); `bad-args-type` when the method table generated from
+  `NewPrecompiledContract` / `UnpackInput` names a different args struct than the harness decoded into
 -/
 open FxVerif FxVerif.Util FxVerif.Model.C20Base FxVerif.Model.C20
 
@@ -23,9 +29,34 @@ def parsePair (w : String) : Option (String × Int) :=
 
 def hexS (s : List Char) : String := hex ((String.ofList s).toUTF8.toList.map (·.toNat))
 
+/-- environment of a `pcv` line: features and program are keyed by the Go field name of the args struct -/
+def pcvEnv (kvs : List (String × String)) : FxVerif.Model.C20Args.Env :=
+  let get (pfx f : String) : Option String := (kvs.find? (·.1 == pfx ++ f)).map (·.2)
+  let nat (pfx f : String) : Nat := ((get pfx f).bind String.toNat?).getD 0
+  let flag (pfx f : String) : Bool := (get pfx f) == some "1"
+  { len := nat "len:", big := fun f => (get "big:" f).bind parseInt, elemsOk := fun _ => true,
+    zeroAddr := flag "zaddr:", emptyStr := flag "empty:", zeroArr := flag "zarr:",
+    ext := fun fn f => flag ("ext:" ++ fn ++ ":") f, num := nat "num:" }
+
+def pcv (key tname : String) (feats : List String) : String :=
+  match key.splitOn "." with
+  | [pc, abi] =>
+    match FxVerif.Gen.C20Run.methods.find? (fun m => m.pc == pc && m.abiName == abi) with
+    | none => "bad-method"
+    | some m =>
+      if m.argsType != tname then "bad-args-type" else
+      match FxVerif.Model.C20Args.findArgs FxVerif.Gen.C20Run.argsTypes tname with
+      | none => "bad-args-type"
+      | some t =>
+        let kvs := feats.filterMap fun w => match w.splitOn "=" with | [k, v] => some (k, v) | _ => none
+        match FxVerif.Model.C20Args.run (pcvEnv kvs) t.prog with
+        | .ok => "ok" | .err => "err" | .panic => "panic"
+  | _ => "bad-op"
+
 def step (_ : Unit) (line : String) : Unit × String :=
   match words line with
   | "reset" :: _ => ((), "ok")
+  | "pcv" :: key :: tname :: feats => ((), pcv key tname feats)
   | ["fee", mode, msgs, exempt, maxB, gas, fee, prices] =>
     match maxB.toNat?, gas.toNat?, (parseList fee).mapM parsePair, (parseList prices).mapM parsePair with
     | some mb, some g, some fs, some ps =>
